@@ -6,7 +6,7 @@ package vgirpc
 import (
 	"fmt"
 	"regexp"
-	"strconv"
+	"strings"
 )
 
 // Well-known metadata keys used in the vgi_rpc wire protocol.
@@ -109,18 +109,35 @@ var semverRegex = regexp.MustCompile(`^(0|[1-9]\d*)\.(0|[1-9]\d*)\.(0|[1-9]\d*)$
 // non-negative integers and no leading zeros (except literal “0“). No
 // prereleases (“1.0.0-rc1“) and no build metadata (“1.0.0+foo“).
 // Mirrors Python's vgi_rpc.metadata.parse_version.
-func parseSemver(value string) (major, minor, patch int, err error) {
+//
+// The components are returned as their canonical decimal digit strings, not
+// machine ints: the grammar puts no bound on their length and Python's ints
+// are arbitrary precision, so converting with strconv.Atoi would clamp every
+// out-of-range component to the same value and make distinct versions compare
+// equal. Compare components with [compareSemverPart].
+func parseSemver(value string) (major, minor, patch string, err error) {
 	m := semverRegex.FindStringSubmatch(value)
 	if m == nil {
 		//lint:ignore ST1005 message text mirrors Python's parse_version() verbatim for cross-language parity
-		return 0, 0, 0, fmt.Errorf(
+		return "", "", "", fmt.Errorf(
 			"Invalid protocol version %q: expected canonical semver "+
 				"MAJOR.MINOR.PATCH with non-negative integers and no leading zeros "+
 				"(no prereleases or build metadata).",
 			value)
 	}
-	major, _ = strconv.Atoi(m[1])
-	minor, _ = strconv.Atoi(m[2])
-	patch, _ = strconv.Atoi(m[3])
-	return major, minor, patch, nil
+	return m[1], m[2], m[3], nil
+}
+
+// compareSemverPart orders two version components returned by [parseSemver]
+// numerically, returning -1, 0 or +1. Both are canonical (digits only, no
+// leading zeros), so the longer string is the larger number and equal-length
+// strings order lexicographically — exact for any number of digits.
+func compareSemverPart(a, b string) int {
+	if len(a) != len(b) {
+		if len(a) < len(b) {
+			return -1
+		}
+		return 1
+	}
+	return strings.Compare(a, b)
 }
